@@ -338,15 +338,35 @@ func (x *Exec) resolvedSig(pc *preparedCall) *types.Signature {
 func (x *Exec) callUnknownFuncValue(fr *Frame, pc *preparedCall, st *State, k func(*State, []Value)) {
 	// function-typed struct field with a contract ("fnfield")
 	if pc.fieldKey != "" {
-		if fc := x.C.Funcs["fnfield:"+pc.fieldKey]; fc != nil {
-			x.callFnFieldContract(fr, pc, fc, st, k)
-			return
+		for _, fc := range x.C.FnFields {
+			parts := strings.SplitN(fc.Name, ".", 2)
+			if len(parts) == 2 && strings.Contains(pc.fieldKey, parts[0]) && strings.HasSuffix(pc.fieldKey, "."+parts[1]) {
+				x.callFnFieldContract(fr, pc, fc, st, k)
+				return
+			}
 		}
 	}
-	x.Abstractions["call of unknown function value at "+x.pos(pc.e)+": results unconstrained, heap havocked"] = true
 	if pc.fv != nil && pc.fv.Sym != nil {
 		x.countCall(st, pc.fv.Sym)
 	}
+	// a function-typed parameter with a declared frame: "ghost callback <param> assigns <patterns...>"
+	if id, ok := ast.Unparen(pc.e.Fun).(*ast.Ident); ok && fr.top != nil && fr.depth == 0 {
+		for _, g := range fr.top.Contract.Ghost {
+			f := strings.Fields(g)
+			if len(f) >= 3 && f[0] == "callback" && f[1] == id.Name && f[2] == "assigns" {
+				tmp := &FuncContract{Assigns: f[3:]}
+				x.applyAssigns(fr, st, tmp, nil)
+				var out []Value
+				if pc.fv != nil && pc.fv.Sig != nil {
+					out = x.freshResults(st, pc.fv.Sig, "cb")
+				}
+				x.Trusted["callback parameter "+id.Name+" of "+fr.top.Name+": frame as declared; every closure passed for it must be verified against that frame"] = true
+				k(st, out)
+				return
+			}
+		}
+	}
+	x.Abstractions["call of unknown function value at "+x.pos(pc.e)+": results unconstrained, heap havocked"] = true
 	x.havocHeap(st)
 	var out []Value
 	if pc.fv != nil && pc.fv.Sig != nil {
@@ -739,6 +759,7 @@ func (x *Exec) callByContract(fr *Frame, pc *preparedCall, fc *FuncContract, nam
 		}
 	}
 	site := x.siteLabel(pc.e)
+	x.holdsPre(fr, st, fc, shortName(name), site, pc)
 	for i, r := range fc.Requires {
 		t := x.specBool(env, r.Expr)
 		x.oblige(fr, st, "pre", fmt.Sprintf("%s/%d@%s", shortName(name), i+1, site), t, pc.e)
@@ -759,6 +780,7 @@ func (x *Exec) callByContract(fr *Frame, pc *preparedCall, fc *FuncContract, nam
 		st.assume(x.specBool(env, e.Expr))
 	}
 	x.tsub = saved
+	x.assumeStable(fr, st, fc, pc)
 	k(st, results)
 }
 
@@ -795,6 +817,11 @@ func (x *Exec) applyAssigns(fr *Frame, st *State, fc *FuncContract, env *SpecEnv
 		}
 		if strings.HasPrefix(a, "ghost:") {
 			name := strings.TrimPrefix(a, "ghost:")
+			if iv, ok := st.ghost[name].(IntV); ok {
+				_ = iv
+				st.ghost[name] = IntV{Var(x.fresh("G_"+name), SInt)}
+				continue
+			}
 			old := st.ghostArr(name, SInt)
 			st.setGhostArr(name, Var(x.fresh("G_"+name), old.Sort))
 			continue
@@ -816,6 +843,35 @@ func (x *Exec) lazyHavoc(st *State, pat string) {
 
 func (x *Exec) callFnFieldContract(fr *Frame, pc *preparedCall, fc *FuncContract, st *State, k func(*State, []Value)) {
 	sig := pc.fv.Sig
+	// "ghost callsite-requires <field> <expr>": an obligation of the calling function at each call of that field
+	if fr.top != nil && fr.depth == 0 {
+		fieldName := fc.Name[strings.LastIndex(fc.Name, ".")+1:]
+		n := 0
+		for _, g := range fr.top.Contract.Ghost {
+			tag := ""
+			if strings.HasPrefix(g, "callsite-requires [") {
+				if j := strings.Index(g, "]"); j > 0 {
+					tag = g[len("callsite-requires ["):j]
+					g = "callsite-requires" + g[j+1:]
+				}
+			}
+			pre := "callsite-requires " + fieldName + " "
+			if strings.HasPrefix(g, pre) {
+				n++
+				e, err := ParseSpec(strings.TrimPrefix(g, pre))
+				if err != nil {
+					panic(x.unsupported("callsite-requires: " + err.Error()))
+				}
+				env := x.localEnv(fr, st, pc.e)
+				for i := 0; i < sig.Params().Len() && i < len(pc.args) && i < len(fc.Params); i++ {
+					env.vars["arg_"+fc.Params[i].Name] = pc.args[i]
+				}
+				x.oblige(fr, st, "callsite", fmt.Sprintf("%s/%d@%s", fieldName, n, x.siteLabel(pc.e)), x.specBool(env, e), pc.e)
+				x.Obls[len(x.Obls)-1].Clause = e
+				x.Obls[len(x.Obls)-1].Tag = tag
+			}
+		}
+	}
 	env := &SpecEnv{x: x, st: st, vars: map[string]Value{}, pkgPath: fr.pkg.PkgPath, fr: fr}
 	for i := 0; i < sig.Params().Len() && i < len(pc.args); i++ {
 		n := sig.Params().At(i).Name()
@@ -825,6 +881,7 @@ func (x *Exec) callFnFieldContract(fr *Frame, pc *preparedCall, fc *FuncContract
 		env.vars[n] = pc.args[i]
 	}
 	site := x.siteLabel(pc.e)
+	x.holdsPre(fr, st, fc, fc.Name, site, pc)
 	for i, r := range fc.Requires {
 		t := x.specBool(env, r.Expr)
 		x.oblige(fr, st, "pre", fmt.Sprintf("%s/%d@%s", fc.Name, i+1, site), t, pc.e)
@@ -835,6 +892,14 @@ func (x *Exec) callFnFieldContract(fr *Frame, pc *preparedCall, fc *FuncContract
 		x.applyAssigns(fr, st, fc, env)
 	}
 	results := x.freshResults(st, sig, "fnfield")
+	for _, g := range fc.Ghost {
+		if g == "result shardlock" && len(results) == 1 {
+			if p, ok := results[0].(PtrV); ok {
+				p.Prefix = "elem:shard-of-key"
+				results[0] = p
+			}
+		}
+	}
 	for i, r := range results {
 		if i < len(fc.Results) {
 			env.vars[fc.Results[i].Name] = r
@@ -1100,4 +1165,63 @@ func (x *Exec) argType(pc *preparedCall, i int) types.Type {
 		return nil
 	}
 	return pc.argTypes[i]
+}
+
+// holdsPre: a callee whose contract says "ghost holds shard" must be called
+// with a shard (slice element) lock held in write mode.
+func (x *Exec) holdsPre(fr *Frame, st *State, fc *FuncContract, name, site string, pc *preparedCall) {
+	for _, g := range fc.Ghost {
+		if g != "holds shard" {
+			continue
+		}
+		ok := false
+		for _, h := range st.held {
+			if strings.HasPrefix(h.Desc, "elem:") && h.Write {
+				ok = true
+			}
+		}
+		x.oblige(fr, st, "pre", fmt.Sprintf("%s/holds-shard@%s", name, site), BoolLit(ok), pc.e)
+		x.Obls[len(x.Obls)-1].Tag = "C14 C15"
+	}
+}
+
+// assumeStable implements the callback rule: a callee declared "ghost
+// callbacks-only" changes the caller's data structure only through the
+// callbacks it was constructed with; every such callback is verified to
+// preserve the predicates the caller declares "ghost stable <pred>", so they
+// hold again after the call.
+func (x *Exec) assumeStable(fr *Frame, st *State, fc *FuncContract, pc *preparedCall) {
+	cbOnly := false
+	for _, g := range fc.Ghost {
+		if g == "callbacks-only" {
+			cbOnly = true
+		}
+	}
+	if !cbOnly || fr.top == nil {
+		return
+	}
+	var cc *FuncContract
+	for f := fr; f != nil; f = f.parent {
+		if f.contract != nil {
+			cc = f.contract
+			if f.depth == 0 {
+				break
+			}
+		}
+	}
+	if cc == nil {
+		return
+	}
+	for _, g := range cc.Ghost {
+		if !strings.HasPrefix(g, "stable ") {
+			continue
+		}
+		e, err := ParseSpec(strings.TrimPrefix(g, "stable "))
+		if err != nil {
+			panic(x.unsupported("stable: " + err.Error()))
+		}
+		env := x.localEnv(fr, st, pc.e)
+		st.assume(x.specBool(env, e))
+		x.Trusted["callback rule: predicates declared stable are re-assumed after calls to callbacks-only functions (their callbacks are verified to preserve them)"] = true
+	}
 }
